@@ -9,7 +9,7 @@
    was given (shared by documented design), so an in-place edit of that object is visible through
    `target` while the fitted state stays as it was until set_target is called again. *)
 EXTENDS Mat, TLC, Json, CSV, IOUtils
-CONSTANTS Src, Targets, Configs, D, MaxAls, EditVals, PairAll, WithPinv
+CONSTANTS Src, Targets, Configs, D, MaxAls, EditVals, PairAll, WithPinv, WithPerturb
 VARIABLES vals,   \* target object id (1, 2) -> index into Targets : current content of the caller's arrays
           als,    \* sequence of alignment records [cfg, tobj, fit, fitval]
           hist
@@ -76,21 +76,21 @@ ErrFor(c, f, v) == IF IsSymCfg(c) THEN [e0 |-> Z0, e1 |-> Z0] ELSE Err(f, Target
 \* current content of the target an alignment holds: the caller's object (shared by design), or - for a copy of a
 \* warp, whose generic copy() duplicates the end points - a private point set
 TVal(x, vl) == IF x.tobj = 0 THEN x.pval ELSE vl[x.tobj]
-View(a, vl) == [i \in 1..Len(a) |-> [cfg |-> a[i].cfg, tobj |-> a[i].tobj, tval |-> TVal(a[i], vl), fit |-> a[i].fit, fitval |-> a[i].fitval,
-                                      err |-> ErrFor(a[i].cfg, a[i].fit, TVal(a[i], vl))]]
+View(a, vl) == [i \in 1..Len(a) |-> [cfg |-> a[i].cfg, tobj |-> a[i].tobj, tval |-> TVal(a[i], vl), fit |-> a[i].fit, fitval |-> a[i].fitval, pert |-> a[i].pert,
+                                      err |-> IF a[i].pert THEN [e0 |-> Z0, e1 |-> Z0] ELSE ErrFor(a[i].cfg, a[i].fit, TVal(a[i], vl))]]
 Rec(op, a, o, v, err) == [op |-> op, a |-> a, o |-> o, v |-> v, err |-> err, als |-> View(als', vals'), vals |-> vals']
 Init == \E c \in Configs, v1 \in DOMAIN Targets, v2 \in DOMAIN Targets :
           /\ v1 # v2 /\ OK(c, Targets[v1])
           /\ (PairAll \/ v2 = (v1 % Len(Targets)) + 1)
           /\ vals = <<v1, v2>>
-          /\ als = <<[cfg |-> c, tobj |-> 1, pval |-> 0, fit |-> FitFor(c, v1), fitval |-> v1]>>
+          /\ als = <<[cfg |-> c, tobj |-> 1, pval |-> 0, fit |-> FitFor(c, v1), fitval |-> v1, pert |-> FALSE]>>
           /\ hist = <<[op |-> "build", a |-> 1, o |-> 1, v |-> v1, err |-> "", als |-> View(als, vals), vals |-> vals]>>
 SetTarget(a, o) ==
    /\ Len(hist) < D
    /\ IF o \in BadObjs
       THEN UNCHANGED <<vals, als>> /\ hist' = Append(hist, Rec("set_target", a, o, 0, "ValueError"))
       ELSE /\ OK(als[a].cfg, Targets[vals[o]])
-           /\ als' = [als EXCEPT ![a].tobj = o, ![a].fit = FitFor(als[a].cfg, vals[o]), ![a].fitval = vals[o]]
+           /\ als' = [als EXCEPT ![a].tobj = o, ![a].fit = FitFor(als[a].cfg, vals[o]), ![a].fitval = vals[o], ![a].pert = FALSE]
            /\ UNCHANGED vals
            /\ hist' = Append(hist, Rec("set_target", a, o, vals[o], ""))
 \* the caller overwrites the coordinates of one of its own target arrays in place
@@ -101,18 +101,26 @@ CopyAl(a) == /\ Len(hist) < D /\ Len(als) < MaxAls
              /\ als' = Append(als, IF IsSymCfg(als[a].cfg) THEN [als[a] EXCEPT !.tobj = 0, !.pval = TVal(als[a], vals)] ELSE als[a])
              /\ UNCHANGED vals
              /\ hist' = Append(hist, Rec("copy", a, 0, 0, ""))
+\* the parameters of a (homogeneous-family) alignment are overwritten through from_vector_inplace: it is no longer the fit of
+\* anything and owns a new target (its aligned source) - until the next set_target, which must make it a fresh fit again
+\* "whatever happened before" (the model keeps no trace of the perturbed parameters: they must not matter)
+Perturb(a) == /\ Len(hist) < D /\ WithPerturb /\ ~IsSymCfg(als[a].cfg) /\ ~als[a].pert
+              /\ als[a].cfg \notin {"rotation", "rotation_m"}              \* (2-D rotations have no parameter vector in menpo)
+              /\ als' = [als EXCEPT ![a].pert = TRUE, ![a].tobj = 0, ![a].pval = 0]
+              /\ UNCHANGED vals
+              /\ hist' = Append(hist, Rec("perturb", a, 0, 0, ""))
 \* pseudoinverse (C04): an observation - nothing changes; the inverse must undo the CURRENT fit from both sides and have
 \* the current end points exchanged, however often the alignment was retargeted before
 Pinv(a) == /\ Len(hist) < D /\ UNCHANGED <<vals, als>>
            /\ hist' = Append(hist, Rec("pinv", a, 0, 0, ""))
-Next == \/ \E a \in 1..Len(als) : WithPinv /\ Pinv(a)
+Next == \/ \E a \in 1..Len(als) : (WithPinv /\ Pinv(a)) \/ Perturb(a)
         \/ \E a \in 1..Len(als), o \in GoodObjs \cup BadObjs : SetTarget(a, o)
         \/ \E o \in GoodObjs, v \in EditVals : Edit(o, v)
         \/ \E a \in 1..Len(als) : CopyAl(a)
 Spec == Init /\ [][Next]_vars
 \* ---- properties --------------------------------------------------------------------------------------
 \* C08: whatever happened before, the state is the fresh fit to the value the alignment was last (re)targeted to
-HistoryIndependent == \A a \in 1..Len(als) : als[a].fit = FitFor(als[a].cfg, als[a].fitval)
+HistoryIndependent == \A a \in 1..Len(als) : ~als[a].pert => als[a].fit = FitFor(als[a].cfg, als[a].fitval)
 AfterSetTargetInSync == (hist # <<>> /\ hist[Len(hist)].op = "set_target" /\ hist[Len(hist)].err = "") =>
                            LET a == hist[Len(hist)].a IN als[a].tobj # 0 /\ als[a].fitval = vals[als[a].tobj]
 BadTargetRejected == [][ (hist' # hist /\ hist'[Len(hist')].err # "") => UNCHANGED <<vals, als>> ]_vars
@@ -144,7 +152,7 @@ InitOne == \E c \in Configs :
           LET v1 == CHOOSE v \in DOMAIN Targets : OK(c, Targets[v]) /\ \A w \in DOMAIN Targets : OK(c, Targets[w]) => v <= w
               v2 == (v1 % Len(Targets)) + 1 IN
           /\ vals = <<v1, v2>>
-          /\ als = <<[cfg |-> c, tobj |-> 1, pval |-> 0, fit |-> FitFor(c, v1), fitval |-> v1]>>
+          /\ als = <<[cfg |-> c, tobj |-> 1, pval |-> 0, fit |-> FitFor(c, v1), fitval |-> v1, pert |-> FALSE]>>
           /\ hist = <<[op |-> "build", a |-> 1, o |-> 1, v |-> v1, err |-> "", als |-> View(als, vals), vals |-> vals]>>
 SpecOne == InitOne /\ [][Next]_vars
 AfterSetTargetInSyncStep == [][ (hist' # hist /\ hist'[Len(hist')].op = "set_target" /\ hist'[Len(hist')].err = "") =>
